@@ -37,6 +37,8 @@ MIRRORS = [("python/eups/VersionCompare.py", "*"), ("python/eups/hooks.py", "*")
            ("python/eups/Eups.py", "Eups._findLatestProduct"), ("python/eups/Eups.py", "Eups._selectPreferredProduct"),
            ("python/eups/Eups.py", "Eups._findProductsByExpr"), ("python/eups/Eups.py", "Eups._findPreferredProductByExpr"),
            ("python/eups/Eups.py", "Eups.findTaggedProduct"), ("python/eups/Eups.py", "Eups._findTaggedProduct"),
+           ("python/eups/distrib/Repositories.py", "Repositories.findPackage"), ("python/eups/distrib/Repository.py", "Repository.findPackage"),
+           ("python/eups/distrib/Repository.py", "Repository.listPackages"), ("python/eups/distrib/Repository.py", "Repository._getPackageLookup"),
            ("python/eups/Eups.py", "Eups.findProducts"), ("python/eups/Eups.py", "_TagSet"), ("python/eups/utils.py", "uniq"),
            ("python/eups/db/Database.py", "_Database.findProducts"), ("python/eups/db/Database.py", "_cmp_by_verflav"),
            ("python/eups/stack/ProductStack.py", "ProductStack.getVersions"), ("python/eups/stack/ProductFamily.py", "ProductFamily.getVersions")]
@@ -377,6 +379,123 @@ def impl_list(case):
         common.rmtree(root)
 
 
+def _repos_query(case):
+    """distrib.Repositories.findPackage(product, Tag("latest")) over package repositories given as directories of manifests"""
+    root = common.scratch("c10r")
+    try:
+        common.mkstacks(root, nstacks=1)
+        e = common.new_eups()
+        roots = []
+        for i, vers in enumerate(case["repos"]):
+            r = os.path.join(root, "srv%d" % i)
+            os.makedirs(os.path.join(r, "manifests"))
+            for v in vers:
+                with open(os.path.join(r, "manifests", "prod-%s.manifest" % v), "w") as fh:
+                    fh.write("EUPS distribution manifest for prod (%s). Version 1.0\n#\n" % v)
+            roots.append(r)
+        from eups.distrib.Repositories import Repositories
+
+        def ref(out):
+            return None if out is None else [roots.index(out[3]), out[1]]
+
+        def guarded(f):
+            try:
+                with contextlib.redirect_stderr(io.StringIO()), contextlib.redirect_stdout(io.StringIO()):
+                    return f()
+            except AttributeError:
+                return {"err": "Malformed"}
+            except Exception as ex:  # noqa
+                return {"err": "E:" + type(ex).__name__}
+        reps = Repositories(roots, eupsenv=e, verbosity=-1, log=io.StringIO())
+        tag = e.tags.getTag("latest")
+        per = []
+        for r in roots:
+            o = guarded(lambda: reps.repos[r].findPackage("prod", tag))
+            per.append(o if isinstance(o, dict) else (None if o is None else o[1]))
+        allv = [v for vers in case["repos"] for v in vers]
+        from eups.utils import Flavor
+        res = {"passes": len(Flavor().getFallbackFlavors(e.flavor, True)),      # the loop over the repositories runs once per preferred flavor
+               "latest": guarded(lambda: ref(reps.findPackage("prod", tag))),
+               "default": guarded(lambda: ref(reps.findPackage("prod"))),       # no version: the preferred tags, of which only `latest` finds anything here
+               "per_repo": per}
+        refs = set(x[1] for x in (res["latest"], res["default"]) if isinstance(x, list)) | set(x for x in per if isinstance(x, str))
+        res["cmp_to"] = {r: "".join(impl_cmp(v, r, False) for v in allv) for r in refs}
+        return res
+    finally:
+        common.rmtree(root)
+
+
+def impl_repos(case):
+    q = common.in_child(_repos_query, case)
+    if q[0] != "ok":
+        raise common.InfraError("querying the package repositories failed: %r" % (q,))
+    return q[1]
+
+
+def eval_repos(ctx, c, inp, io_, ans):
+    repos = c["repos"]
+    allv = [v for vers in repos for v in vers]
+    ctx.case(key=("R", json.dumps(repos)), nontrivial=len(set(allv)) > 1,
+             sample={"input": inp, "impl": {k: io_[k] for k in ("latest", "default", "per_repo")}} if ctx.evaluations % 97 == 5 else None)
+    ctx.hist("repos/n=%d" % len(repos))
+    mo = ans["r"]
+    per_latest = [x for x in io_["per_repo"] if isinstance(x, str)]
+    if len(per_latest) >= 2 and io_["cmp_to"].get(per_latest[0]):
+        # is the first repository's latest the overall maximum?  (the class on which a wrong comparison shows)
+        col = io_["cmp_to"][per_latest[0]]
+        ctx.hist("repos/first-repository-has-the-latest" if all(ch in "<=" for ch in col) else "repos/a-later-repository-has-the-latest")
+    for api in ("latest", "default"):
+        got = io_[api]
+        if got != mo:
+            ctx.disagree("latest_across_repositories/" + api, inp, {k: io_[k] for k in ("latest", "default", "per_repo")}, mo)
+        # oracle (ii): declared there, and no available version is later (the implementation's own comparisons)
+        if isinstance(got, dict):
+            ctx.fail("latest_no_crash", inp, got, mo, note="%s raised %s" % (api, got["err"]))
+        elif (got is None) != (not allv):
+            ctx.fail("latest_exists", inp, got, mo, note="%s = %r for available versions %r" % (api, got, allv[:6]))
+        elif got is not None:
+            if got[1] not in repos[got[0]]:
+                ctx.fail("latest_is_max", inp, got, mo, note="[repositories] %r is not in repository %d" % (got[1], got[0]))
+            else:
+                bad = [allv[i] for i, ch in enumerate(io_["cmp_to"][got[1]]) if ch not in "<="]
+                if bad:
+                    ctx.fail("latest_is_max", inp, got, mo, finding=None,
+                             note="[repositories, %s] %r returned but %r are later" % (api, got[1], bad[:3]))
+    for i, x in enumerate(io_["per_repo"]):
+        if isinstance(x, str):
+            bad = [v for v in repos[i] if io_["cmp_to"][x][allv.index(v)] not in "<="]
+            if bad:
+                ctx.fail("latest_is_max", inp, io_["per_repo"], mo, note="[repository %d] %r returned but %r are later" % (i, x, bad[:3]))
+
+
+def gen_repos(ctx, pool, n):
+    rng = ctx.rng
+    bypre = {}
+    for nme, d in pool:
+        bypre.setdefault(d["prefix"], []).append((nme, d))
+    groups = [g for g in bypre.values() if len(g) >= 12]
+    cases = []
+    for _ in range(n):
+        grp = rng.choice(groups)
+        base = rng.sample(grp, min(len(grp), 9))
+        d0 = dict(rng.choice(base)[1])
+        for nums in (["9"], ["10"], ["1", "9"], ["1", "10"]):
+            if rng.random() < 0.4:
+                e = dict(d0, nums=nums, seps=[rng.choice("._")] * (len(nums) - 1), pre=None, post=None)
+                base.append((L.render(e), e))
+        repos = []
+        for _s in range(rng.choice([1, 2, 2, 3, 3, 4])):
+            st, keys = [], set()
+            for nme, d in rng.sample(base, min(len(base), rng.choice([0, 1, 1, 2, 3]))):
+                k = spelling_key(d)
+                if k not in keys:                      # no two versions of a repository compare equal (directory order is not modelled)
+                    keys.add(k)
+                    st.append(nme)
+            repos.append(st)
+        cases.append({"kind": "repos", "repos": repos})
+    return cases
+
+
 def _list_queries(cases, root, stacks):
     """several requests against the same stacks, one after the other in one process (the stacks are only read)"""
     return [_list_query(c, root, stacks) for c in cases]
@@ -458,6 +577,9 @@ def impl_small(jobs):
             continue
         if c["kind"] == "list":
             out.append(impl_list(c))
+            continue
+        if c["kind"] == "repos":
+            out.append(impl_repos(c))
             continue
         out.append(impl_match(c) if c["kind"] == "match" else impl_legal(c) if c["kind"] == "legal" else impl_latest(c))
     if _E is not None:
@@ -657,13 +779,15 @@ def eval_small(ctx, cases):
     """match and latest cases"""
     if not cases:
         return
-    impl = impl_small_forked(cases, WORKERS if (len(cases) > 200 or cases[0]["kind"] in ("stack", "list")) else 1)
+    impl = impl_small_forked(cases, WORKERS if (len(cases) > 200 or cases[0]["kind"] in ("stack", "list", "repos")) else 1)
     reqs = []
     for c in cases:
         if c["kind"] == "match":
             reqs.append({"m": "c10", "op": "match", "v": c["v"], "expr": c["expr"]})
         elif c["kind"] == "legal":
             reqs.append({"m": "c10", "op": "legal", "expr": c["expr"]})
+        elif c["kind"] == "repos":
+            reqs.append(dict({"m": "c10", "op": "repos", "repos": c["repos"], "passes": impl[len(reqs)]["passes"]}, **MODEL_FLAGS))
         elif c["kind"] == "list":
             reqs.append({"m": "c10", "op": "list", "version": c["version"], "tags": c["tags"], "stacks": c["stacks"],
                          "preferred": impl[len(reqs)]["preferred"]})     # the session's preferred tags are part of the input
@@ -678,6 +802,8 @@ def eval_small(ctx, cases):
         inp = {k: v for k, v in c.items() if not k.startswith("_")}
         if c["kind"] == "stack":
             eval_stack(ctx, c, inp, io_, ans)
+        elif c["kind"] == "repos":
+            eval_repos(ctx, c, inp, io_, ans)
         elif c["kind"] == "list":
             eval_list(ctx, c, inp, io_, ans)
         elif c["kind"] == "legal":
@@ -1150,9 +1276,9 @@ def gen_stacks(ctx, pool, n):
 # ---- generators -------------------------------------------------------------------------------------------
 
 SIZES = {   # name sets and case counts per tier; "search" is the budget of the hunt for a failing input after a correspondence break
-    "quick":    dict(g1404=300,  wide=330,  arb_sets=45,  match=2500,  latest=600,  stacks=130,  legal=600,  enum=1500, lists=110, families=3),
-    "search":   dict(g1404=1404, wide=700,  arb_sets=150, match=10000, latest=2000, stacks=450,  legal=2000, enum=8000, lists=400, families=12),
-    "thorough": dict(g1404=1404, wide=1600, arb_sets=600, match=40000, latest=8000, stacks=1500, legal=8000, enum=None, lists=1000, families=None),
+    "quick":    dict(g1404=300,  wide=330,  arb_sets=45,  match=2500,  latest=600,  stacks=130,  legal=600,  enum=1500, lists=110, families=3, repos=80),
+    "search":   dict(g1404=1404, wide=700,  arb_sets=150, match=10000, latest=2000, stacks=450,  legal=2000, enum=8000, lists=400, families=12, repos=300),
+    "thorough": dict(g1404=1404, wide=1600, arb_sets=600, match=40000, latest=8000, stacks=1500, legal=8000, enum=None, lists=1000, families=None, repos=1500),
 }
 
 
@@ -1340,6 +1466,12 @@ def run_sizes(ctx, sz):
     if pool and not ctx.out_of_time():
         eval_chunks(ctx, gen_stacks(ctx, pool, sz["stacks"]), 80)
     if pool and not ctx.out_of_time():
+        eval_chunks(ctx, gen_repos(ctx, pool, sz["repos"]), 80)
+        if not ctx.out_of_time():
+            for k, floor in (("repos/a-later-repository-has-the-latest", 5), ("repos/first-repository-has-the-latest", 5)):
+                if ctx.histogram.get(k, 0) < floor:
+                    raise common.InfraError("degenerate distribution: %d repository cases under %r (floor %d)" % (ctx.histogram.get(k, 0), k, floor))
+    if pool and not ctx.out_of_time():
         eval_chunks(ctx, gen_small(ctx, pool, sz["match"], sz["latest"]) + gen_legal(ctx, pool, sz["legal"])
                     + gen_enum_exprs(ctx, sz["enum"]), 6000)
     # arbitrary strings over the well-formed alphabet, in sets (all ordered pairs of each set)
@@ -1387,6 +1519,12 @@ def run_enlarged(ctx, sz, pool):
             eval_small(ctx, cases[i:i + 80])
             yield
 
+    def repos():
+        cases = gen_repos(ctx, pool, sz["repos"])
+        for i in range(0, len(cases), 100):
+            eval_small(ctx, cases[i:i + 100])
+            yield
+
     def small():
         cases = gen_small(ctx, pool, sz["match"], sz["latest"]) + gen_legal(ctx, pool, sz["legal"]) + gen_enum_exprs(ctx, sz["enum"])
         ctx.rng.shuffle(cases)
@@ -1410,7 +1548,7 @@ def run_enlarged(ctx, sz, pool):
                 eval_names(ctx, names, descs, tag=tag)
                 yield
 
-    its = [lists(), stacks(), small(), arbitrary(), matrices()]
+    its = [lists(), stacks(), repos(), small(), arbitrary(), matrices()]
     while its and not ctx.out_of_time():
         for it in list(its):
             if ctx.out_of_time():
@@ -1420,7 +1558,7 @@ def run_enlarged(ctx, sz, pool):
             except StopIteration:
                 its.remove(it)
     if its:
-        ctx.note("time limit reached in the enlarged budget: %d of 5 case classes not exhausted" % len(its))
+        ctx.note("time limit reached in the enlarged budget: %d of 6 case classes not exhausted" % len(its))
 
 
 def run(ctx, sz=None):
@@ -1448,6 +1586,8 @@ def names_of(inp):
         return list(inp["names"])
     if inp.get("kind") == "stack":
         return [v for st in inp["stacks"] for v in st] + [t[1] for t in inp["terms"]]
+    if inp.get("kind") == "repos":
+        return [v for st in inp["repos"] for v in st]
     if inp.get("kind") == "list":
         return [d["ver"] for st in inp["stacks"] for d in st] + [t[1] for t in inp["terms"]]
     return []
@@ -1518,6 +1658,8 @@ def replay(ctx, rp):
     dis = sub_ctx.disagreements
     io_ = (dis[0]["impl_output"] if dis else (sub_ctx.failures[0]["impl_output"] if sub_ctx.failures else None))
     mo = (dis[0]["model_output"] if dis else (sub_ctx.failures[0]["model_output"] if sub_ctx.failures else None))
+    if io_ is None and c["kind"] == "repos":
+        io_ = mo = impl_small_forked([c], 1)[0]["latest"]
     if io_ is None and c["kind"] == "list":
         io_ = mo = impl_small_forked([c], 1)[0]["products"]
     if io_ is None:
